@@ -162,6 +162,8 @@ class StepHooks(Hooks):
             return any(StepHooks._pat_is_flag(q, want) for q in pat.get("pats", []))
         if pat.get("k") in ("PRef", "PDeref") and pat.get("pat") is not None:
             return StepHooks._pat_is_flag(pat["pat"], want)
+        if pat.get("k") == "PBind" and pat.get("sub") is not None:      # `flag @ (A | B)`
+            return StepHooks._pat_is_flag(pat["sub"], want)
         return (pat.get("def") or "").startswith(FLAG_PREFIX + want) or (pat.get("ctor_of") or "") == FLAG_PREFIX + want
 
     @staticmethod
@@ -179,7 +181,7 @@ class StepHooks(Hooks):
             if idx:
                 return idx
             # wildcard arm
-            idx = [j for j, a in enumerate(node["arms"]) if a["pat"]["k"] == "PWild"]
+            idx = [j for j, a in enumerate(node["arms"]) if a["pat"]["k"] == "PWild" or (a["pat"]["k"] == "PBind" and a["pat"].get("sub") is None)]
             return idx or None
         return None
 
@@ -410,6 +412,14 @@ def _analyse_variants(facts, fn_def, max_split=5, **kw):
     is_guard = lambda z: z.get("k") == "If" and tast.contains(
         z["cond"], lambda q: q.get("k") == "MethodCall" and q.get("name") in ("is_nan", "is_finite", "is_infinite"))
     guards = list(tast.find(hk.main_loop, is_guard))
+    # `match v { x if x.is_nan() => .., x => .. }` is the same guard written as a match: the interpreter runs it as an if-chain
+    from symx import guard_chain_if
+    match_of = {}
+    for m_ in tast.find(hk.main_loop, lambda z: z.get("k") == "Match" and any(a.get("guard") is not None for a in z.get("arms", []))):
+        gi = guard_chain_if(m_)
+        if gi is not None and is_guard(gi):
+            guards.append(gi)
+            match_of[id(gi)] = m_
     # ... also inside private helpers the interpreter steps into from the main loop (an error norm moved into a helper)
     for c_ in tast.find(hk.main_loop, lambda z: z.get("k") in ("Call", "MethodCall") and facts.inlinable(z.get("def") or "")):
         guards += tast.find(facts.bodies[c_["def"]]["body"], is_guard)
@@ -421,10 +431,11 @@ def _analyse_variants(facts, fn_def, max_split=5, **kw):
         if not any(c2 is n for _, c2 in scored):
             scored.append((100, n))
         # conditionals that enclose a NaN guard (up to the accept test) decide whether the guard runs at all
-        for anc, parents in tast.find_with_parents(hk.main_loop, lambda z: z is n):
+        anchor = match_of.get(id(n), n)
+        for anc, parents in tast.find_with_parents(hk.main_loop, lambda z, anchor=anchor: z is anchor):
             for a in parents:
                 if a.get("k") == "If" and a is not hk.accept_if and a is not n and not any(c2 is a for _, c2 in scored):
-                    if tast.contains(a["then"], lambda z: z is n) or (a.get("else") is not None and tast.contains(a["else"], lambda z: z is n)):
+                    if tast.contains(a["then"], lambda z: z is anchor) or (a.get("else") is not None and tast.contains(a["else"], lambda z: z is anchor)):
                         scored.append((90, a))
     # a let-bound boolean tested by several `if`s of one iteration (`let last = ..; if last {h = ..} .. x = if last {..} else {..}`):
     # joining after the first test would lose the correlation with the later ones, so the first test is split
